@@ -158,6 +158,10 @@ def run_gs(job, ob):
             rules.SCATTER_DUP_ORDER[0] = "last"
         for o in outs:
             if o.exc is not None:
+                from ..harness import exc_origin
+                if exc_origin(o.exc) == "harness":
+                    ob.fail_harness(f"harness raised: {o.exc!r}")
+                    continue
                 ob.fail_harness(f"raised: {o.exc!r}")
                 continue
             L, new, V, g = o.value
